@@ -460,3 +460,13 @@ def default_metric_calls(rng):
 def load_background_calls(rng):
     yield {"return_bins": {"t": "const", "v": True}}
     yield {"return_bins": {"t": "const", "v": False}}
+
+
+@scope("tcrdist_calls")
+def tcrdist_calls(rng):
+    # no pair within max_edits: the TCRdist part (optional pwseqdist dependency, absent here) is never reached
+    yield {"df": table({"CDR3A": ["CAVSDLEPNSSASKIIF", "CAGGGGGGGGGGGF"], "TRAV": ["TRAV12-2*01", "TRAV1-1*01"],
+                        "CDR3B": ["CASSIRSSYEQYF", "CASWWWWWWWWWWWWF"], "TRBV": ["TRBV19*01", "TRBV2*01"]}),
+           "chain": {"t": "const", "v": "beta"}, "max_edits": I(1), "edit_on_trimmed": {"t": "const", "v": True}, "max_tcrdist": R(20)}
+    yield {"df": table({"CDR3A": ["CAVSDLEPNSSASKIIF"], "TRAV": ["TRAV12-2*01"], "CDR3B": ["CASSIRSSYEQYF"], "TRBV": ["TRBV19*01"]}),
+           "chain": {"t": "const", "v": "alpha"}, "max_edits": I(2), "edit_on_trimmed": {"t": "const", "v": False}, "max_tcrdist": R(20)}
